@@ -110,12 +110,6 @@ Definition resp_matches (s : state CV) (m : outcome CV) (o : oresp) : bool :=
   | _, _ => false
   end.
 
-(* ---------- well-formedness of the views (what the libraries guarantee) ---------- *)
-Definition table_wf (t : table) : bool :=
-  negb (Nat.eqb (List.length (t_header t)) 0)
-  && forallb (fun r => Nat.eqb (List.length r) (List.length (t_header t))) (t_rows t).
-Definition csv_wf (c : csv_view) : bool := match c with CsvOk t => table_wf t | _ => true end.
-
 (* ---------- the six read-only resources ---------- *)
 Definition get_req (rt : route) : request CV :=
   {| rq_meth := MGet; rq_route := rt; rq_ctype := CtOther; rq_raw := ""; rq_toml := TomlErr; rq_csv := CsvErr; rq_json := JsonErr |}.
@@ -142,7 +136,7 @@ Fixpoint check_steps (s : state CV) (last : option obs) (steps : list step) (i :
   | [] => None
   | st :: rest =>
       let out := handle s (sp_req st) in
-      if negb (csv_wf (rq_csv (sp_req st))) then Some i else
+      if negb (csv_wf (rq_csv (sp_req st))) && negb (match rq_csv (sp_req st) with CsvLibPanic => true | _ => false end) then Some i else
       if negb (resp_matches s out (sp_resp st)) then Some i else
       match out with
       | Panic => match rest with [] => None | _ => Some i end     (* the harness abandons a Mux that panicked *)
